@@ -84,5 +84,9 @@ impl State {
 //@use cell.fns State::format_cell_safe
 }
 
+// ---- the pixel index of the d2 canvas words (Rstmt)
+//@use cell.fns ::data_set#index
+//@use cell.fns ::data_get#index
+
 } // verus!
 fn main() {}
